@@ -496,38 +496,49 @@ func (v Value) opMod(b Value) Value {
 		return Value{t: untypedInt, num: float64(int(v.num) % int(b.num))}
 	}
 }
+// shiftType: a shift has the type of its left operand; the count may be of any integer type (an untyped left
+// operand still takes the type of a typed count, as before)
+func shiftType(v, b Value) Type {
+	if v.t == untypedInt {
+		return mixType(v.t, b.t)
+	}
+	return v.t
+}
+
 func (v Value) opBitLsh(b Value) Value {
-	t := mixType(v.t, b.t)
+	t := shiftType(v, b)
+	n := int(b.num) // a negative count is a run-time error, as in Go
 	switch t {
 	case TypeFloat64:
-		return Value{t: t, num: float64(int(v.num) << int(b.num))}
+		return Value{t: t, num: float64(int(v.num) << n)}
 	case TypeInt32:
-		return Value{t: t, num: float64(int32(v.num) << int32(b.num))}
+		return Value{t: t, num: float64(int32(v.num) << n)}
 	case TypeUint32:
-		return Value{t: t, num: float64(uint32(v.num) << uint32(b.num))}
+		return Value{t: t, num: float64(uint32(v.num) << n)}
 	case TypeInt8:
-		return Value{t: t, num: float64(int8(v.num) << int8(b.num))}
+		return Value{t: t, num: float64(int8(v.num) << n)}
 	case TypeUint8:
-		return Value{t: t, num: float64(byte(v.num) << byte(b.num))}
+		return Value{t: t, num: float64(byte(v.num) << n)}
 	default:
-		return Value{t: untypedInt, num: float64(int(v.num) << int(b.num))}
+		return Value{t: untypedInt, num: float64(int(v.num) << n)}
 	}
 }
 func (v Value) opBitRsh(b Value) Value {
-	t := mixType(v.t, b.t)
+	t := shiftType(v, b)
+	n := int(b.num)
 	switch t {
 	case TypeFloat64:
-		return Value{t: t, num: float64(int(v.num) >> int(b.num))}
+		return Value{t: t, num: float64(int(v.num) >> n)}
 	case TypeInt32:
-		return Value{t: t, num: float64(int32(v.num) >> int32(b.num))}
+		return Value{t: t, num: float64(int32(v.num) >> n)}
 	case TypeUint32:
-		return Value{t: t, num: float64(uint32(v.num) >> uint32(b.num))}
+		return Value{t: t, num: float64(uint32(v.num) >> n)}
 	case TypeInt8:
-		return Value{t: t, num: float64(int8(v.num) >> int8(b.num))}
+		return Value{t: t, num: float64(int8(v.num) >> n)}
 	case TypeUint8:
-		return Value{t: t, num: float64(byte(v.num) >> byte(b.num))}
+		return Value{t: t, num: float64(byte(v.num) >> n)}
 	default:
-		return Value{t: untypedInt, num: float64(int(v.num) >> int(b.num))}
+		return Value{t: untypedInt, num: float64(int(v.num) >> n)}
 	}
 }
 func (v Value) opBitAnd(b Value) Value {
